@@ -14,12 +14,17 @@ namespace Sqroot.Props.C05
 open Sqroot.Model Sqroot.Proofs
 
 /-- tie 1: memoizer.{wait, waitToGrow, setData, run} and newMemoizeSpec are, statement for
-statement, the functions the transition system was written from; every access to data /
-maxLength / done is inside a function that holds `mu`; `iter` is called only from `run`; the only
+statement (locals and the memoizer's fields named canonically), the functions the transition
+system was written from; every access to a field of the memoizer other than the mutex, the two
+conditions and the digit function is inside one of exactly three functions, each of which holds
+the mutex from its first statement to its return; `iter` is called only from `run`; the only
 `go` statement starts `run`; every Cond.Wait is in a loop — in all three versions -/
 theorem monitor_as_modelled :
     Gen.V1.monitorSrc = Expect.monitorSrc12 ∧ Gen.V2.monitorSrc = Expect.monitorSrc12 ∧
     Gen.V3.monitorSrc = Expect.monitorSrc3 ∧
+    Gen.V1.sharedStateTouchedBy = ["memoizer.setData", "memoizer.wait", "memoizer.waitToGrow"] ∧
+    Gen.V2.sharedStateTouchedBy = ["memoizer.setData", "memoizer.wait", "memoizer.waitToGrow"] ∧
+    Gen.V3.sharedStateTouchedBy = ["memoizer.setData", "memoizer.wait", "memoizer.waitToGrow"] ∧
     Gen.V1.sharedStateTouchedWithoutLock = [] ∧ Gen.V2.sharedStateTouchedWithoutLock = [] ∧
     Gen.V3.sharedStateTouchedWithoutLock = [] ∧
     Gen.V1.iterCalledBy = ["memoizer.run"] ∧ Gen.V2.iterCalledBy = ["memoizer.run"] ∧
